@@ -2389,6 +2389,15 @@ fn generate_constraints_stmt(
                         node: lhs.node(),
                     })
                 }
+            } else if let ExprKind::MemberAccess(_, member) = &*lhs.kind
+                && let Some(decl) = ctx.resolution_map.get(&member.id)
+                && !matches!(decl, Declaration::StructField { .. })
+            {
+                // `Color.Red`, `ns.f`, `Pt.method`: a name that is declared, not a field of a value
+                ctx.errors.push(Error::GenericWithNode {
+                    msg: "Can't assign to this. Only a variable, a field of a struct value or an indexed element can be assigned to".to_string(),
+                    node: lhs.node(),
+                })
             }
             match assign_op {
                 AssignOperator::Equal => {
